@@ -572,7 +572,11 @@ func (cf *config) runShard(recs []*rec, st *stats, safety bool) {
 			word = "sanitizer-unpinned"
 		}
 		st.outcomes[word+"-report"]++
-		st.addFail(cf, word+"/"+kindName[r.kind]+"/"+r.t.name, cf.pfx()+word+"/"+kindName[r.kind]+"/"+r.t.name+"/"+r.idTail(), obs, r, "", "", stderr)
+		if !safety {
+			// reports on never-judged inputs (outside the statement's domain) are counted in the
+			// evidence (outcome "sanitizer-unpinned-report"), not raised as violations of C16
+			st.addFail(cf, word+"/"+kindName[r.kind]+"/"+r.t.name, cf.pfx()+word+"/"+kindName[r.kind]+"/"+r.t.name+"/"+r.idTail(), obs, r, "", "", stderr)
+		}
 		st.records++
 		pos++
 		crashes++
